@@ -650,6 +650,7 @@ func sensitivity(repo, prop string, extra map[string]any) {
 		var meta struct {
 			Expect string `json:"expect"`
 			Change string `json:"change"`
+			Tier   string `json:"tier"`
 		}
 		_ = loadJSON(filepath.Join(d, "meta.json"), &meta)
 		tmp, err := os.MkdirTemp("", "govc-sens-")
@@ -675,8 +676,13 @@ func sensitivity(repo, prop string, extra map[string]any) {
 				}
 			}
 			self, _ := os.Executable()
-			c := exec.Command(self, "check", "-property", prop, "-tier", "quick")
-			c.Env = append(os.Environ(), "GOVC_REPO="+filepath.Join(tmp, "repo"), "GOVC_EVIDENCE_DIR="+filepath.Join(tmp, "ev"), "GOVC_REPLAY_DIR="+filepath.Join(tmp, "replays"), "VERIF_TIER=quick")
+			tier := "quick"
+			if meta.Tier == "thorough" {
+				tier = "thorough" // changes only the bounded probes of the thorough tier can see (recorded in meta.json)
+			}
+			row["tier"] = tier
+			c := exec.Command(self, "check", "-property", prop, "-tier", tier)
+			c.Env = append(os.Environ(), "GOVC_REPO="+filepath.Join(tmp, "repo"), "GOVC_EVIDENCE_DIR="+filepath.Join(tmp, "ev"), "GOVC_REPLAY_DIR="+filepath.Join(tmp, "replays"), "VERIF_TIER="+tier, "GOVC_NO_SENSITIVITY=1")
 			out, _ := c.CombinedOutput()
 			reported := strings.Contains(string(out), "VIOLATION property="+prop)
 			var names []string
